@@ -407,6 +407,10 @@ func c19Failures() []c19Fail {
 	}
 	add("5", "p / 0", "p % 0", "p + \"a\"", "\"a\" - p", "p * [1]", "p < \"a\"", "p & true", "p << 1.5", "p == u", "p != u", "p[0]", "[1, 2][p]", "\"abc\"[1:p]", "p(1)", "!p", "#p", "-\"a\" + p", "if p 1", "if !p 1 else 2", "while p 1", "x = u", "aton(p)", "id(p, p)", "id()", "read()",
 		"(p + 1) / 0", "(p + [1]) * 2", "!(p + 1)", "#(p * 2)", "~(p + 0.5)", "(p + 1) % (p - 5)", "p = p + \"x\"", "p = 1 + u", "x = p + 1 + u", "[1, p / 0]", "id(p / 0)", "(p - 1) < \"a\"", "[p][3]", "toa(p)[9]", "u + p", "p + u")
+	// the increment forms compile to their own instruction, whose one operand is the variable
+	for _, v := range []string{long, arr, "id", "true", "\"7\""} {
+		add(v, "p = p + 1", "p = 1 + p")
+	}
 	add(long, "p / 2", "p + 1", "p[99]", "p[3:2]", "!p", "-p", "~p", "p(1)", "if p 1", "aton(p)", "p - p", "(p + \"!\") * 2", "p == u")
 	add(arr, "p / 2", "p + 1", "p[99]", "p[3:2]", "!p", "p(1)", "if p 1", "aton(p)", "p < p", "(p + [0]) - 1", "p[0][0]")
 	add("id", "p + 1", "p[0]", "#p", "p(1, 2)", "if p 1", "aton(p)", "p < 1")
